@@ -1,5 +1,5 @@
 (* Properties_C17.v — a registered hostname answers address questions for its own name. *)
-From QV Require Import Base Fields SrcFacts Msg SrcDecisions Sim Hostname HostnameProofs.
+From QV Require Import Base Fields SrcFacts Msg SrcDecisions Sim Hostname HostnameProofs HostnameInv HostnameAccept.
 Local Open Scope Z_scope.
 
 (* For every interface table, every source address and every message: the hostname object's reaction to a
@@ -34,3 +34,10 @@ Example C17_example :
   spec_host_reply true [118;109;46;108;111;99;97;108;46]%N ifs m <> None /\
   spec_host_reply true [118;109;46;108;111;99;97;108;46]%N ifs (mkMessage (A4 167772161) 5353 7 false false [q] []) = None.
 Proof. vm_compute. split; [discriminate|reflexivity]. Qed.
+
+(* over whole runs: the acceptor that judges every reply of a registered hostname object against spec_host_reply
+   (rejection code 7) - and every other output against C08 - accepts every run of the model *)
+Theorem C17_every_run_is_accepted fuel rawlocal ifs ops :
+  Forall (HostnameAccept.op_ok fuel) ops -> mon_hostname rawlocal ifs ops (host_run fuel rawlocal ifs ops) = None.
+Proof. exact (host_run_accepted fuel rawlocal ifs ops). Qed.
+Print Assumptions C17_every_run_is_accepted.
